@@ -80,6 +80,32 @@ def r_shift(ctx, which=('obtain_latters', 'obtain_formers'), with_latter=False):
     c, K = ('v', 'current', 'P'), ('v', 'observed_length', 'P')
     for name in which:
         f = ctx.p.func('dsw.graphized.' + name)
+        # the neighbour lists are total on the vertices of the graph: a raise is unreachable for every k >= 1 and 0 <= c < 4^k
+        for rn in f.stmts(ast.Raise):
+            if rn.kind != 'stmt':
+                continue
+            conds_ = ctx.conds(f, rn)
+            verdict_, cex_ = 'unreachable', None
+            for kv in range(1, 5):
+                for cv in range(4 ** kv):
+                    vals_ = [feval(a_, lambda x: {c: cv, K: kv}.get(x, UNKNOWN)) for a_, p_ in conds_]
+                    if any(v_ is UNKNOWN for v_ in vals_):
+                        verdict_ = 'open' if verdict_ != 'reachable' else verdict_
+                        continue
+                    if all(bool(v_) == p_ for v_, (a_, p_) in zip(vals_, conds_)):
+                        verdict_, cex_ = 'reachable', (cv, kv)
+                        break
+                if verdict_ == 'reachable':
+                    break
+            if verdict_ == 'reachable':
+                run.refute('R-SHIFT', f, 'total-on-the-graph', rn.lineno,
+                           '%s raises for vertex %d at observed length %d, a vertex of the graph: every caller that lists the '
+                           'neighbours of that vertex now fails' % (name, cex_[0], cex_[1]),
+                           inputs='vertex %d, k = %d' % cex_)
+            elif verdict_ == 'open':
+                run.undecided('R-SHIFT', f, 'total-on-the-graph', rn.lineno, 'a raise in %s under conditions that are not evaluable' % name)
+            else:
+                run.ok('R-SHIFT', f, 'total-on-the-graph', rn.lineno, 'the raise is unreachable for 0 <= c < 4^k, k = 1..4')
         got = appended_terms(ctx, f)
         if not got or not got[1]:
             if check_list_form(ctx, f, name, c, K, 'succ' if name == 'obtain_latters' else 'pred'):
